@@ -19,6 +19,30 @@ structure Proposition where
   term_ : Option String := none
 deriving DecidableEq, Repr, Inhabited
 
+/-- a node of the tree `Antecedent.load` builds: a `Proposition`, an `Operator(name)` with its operands, or the
+    value `None` of an operand that has not been set -/
+inductive Expression where
+  | none
+  | prop (p : Proposition)
+  | op (name : String) (left right : Expression)
+deriving DecidableEq, Repr, Inhabited
+
+/-- `Operator(name)`: `name`, `left = None`, `right = None` (a local that is filled before it is pushed) -/
+structure Operator where
+  name : String
+  left : Expression := .none
+  right : Expression := .none
+deriving DecidableEq, Repr, Inhabited
+
+/-- an operator object as an element of the stack -/
+def Expression.ofOp (o : Operator) : Expression := .op o.name o.left o.right
+
+/-- the proposition behind an element of the stack that was pushed as one (an `Operator` has no attributes `hedges`,
+    `term`, `variable`: `AttributeError`) -/
+def Expression.asProp : Expression → Py.M Proposition
+  | .prop p => .ok p
+  | _ => .error .internal
+
 /-- `{v.name: v for v in l}.get(n)` for variables -/
 def varGet (l : List VarInfo) (n : String) : Option VarInfo := l.reverse.find? (·.name == n)
 
